@@ -31,6 +31,8 @@ def entry_points(repo):
             continue
         if f.name in IO_OR_PLOT or f.module.relpath.endswith("plotting.py"):
             continue
+        if f.cls is not None and f.cls.name.startswith("_") and not f.cls.name.startswith("__"):
+            continue   # a private helper class is not a modelling entry point; what its methods do is judged where they are called
         out.append(f)
     return out
 
@@ -92,8 +94,8 @@ def run(ck):
     for m in repo.modules.values():
         for name, v in m.constants.items():
             mutable = isinstance(v, (ast.Dict, ast.Set, ast.DictComp)) or (isinstance(v, ast.Call) and ast.unparse(v.func) in ("dict", "set", "defaultdict", "list"))
-            if isinstance(v, ast.List):
-                # module-level lists are accepted only if nothing in the package mutates them (constant tables)
+            if isinstance(v, (ast.List, ast.Dict, ast.Set, ast.DictComp)) or (isinstance(v, ast.Call) and ast.unparse(v.func) in ("dict", "set", "list")):
+                # module-level containers are accepted only if nothing in the package mutates them (constant tables)
                 mutable = False
                 for f in repo.all_functions():
                     for mu in eff.summary(f).mutates:
